@@ -92,7 +92,7 @@ def run(rep):
     cans = []
     t = copy.deepcopy(base["trace"]); i0 = next(i for i in t[0]["obs"]["instances"] if i["id"] == "L"); i0["items"] = i0["items"][:-1]; cans.append(("last_choice_dropped", t))
     t = copy.deepcopy(base["trace"]); i0 = next(i for i in t[0]["obs"]["instances"] if i["id"] == "L"); i0["items"].reverse(); cans.append(("choices_reordered", t))
-    t = copy.deepcopy(base["trace"]); t[0]["obs"]["selects"][0]["inst"] = "M"; cans.append(("select_wired_to_other_list", t))
+    t = copy.deepcopy(base["trace"]); t[0]["obs"]["selects"][0]["inst"] = "M" if t[0]["obs"]["selects"][0]["inst"] != "M" else "L"; cans.append(("select_wired_to_other_list", t))
     t = copy.deepcopy(base["trace"]); t[0]["obs"]["instances"].append(copy.deepcopy(t[0]["obs"]["instances"][0])); cans.append(("instance_declared_twice", t))
     t = copy.deepcopy(base["trace"]); i0 = next(i for i in t[0]["obs"]["instances"] if i["id"] == "L"); i0["items"][0] = [x for x in i0["items"][0] if x[0] in ("name", "label", "itextId")]; cans.append(("extra_column_lost", t))
     b2 = next((o for o in ok if o["trace"][0]["src"]["csv"]), None)
